@@ -371,7 +371,7 @@ impl<'a> Gen<'a> {
         let vars = self.vars_of(ty);
         let funcs = if deep { vec![] } else { self.funcs_returning(ty) };
         // alternatives: 0 literal, 1 variable, 2 operator, 3 call, 4 if, 5 builtin/method, 6 index
-        let w_var = if vars.is_empty() { 0 } else { 6 };
+        let w_var = if vars.is_empty() { 0 } else if self.cfg.negative_bias { 12 } else { 6 };
         let w_op = if deep { 0 } else { 7 };
         let w_call = if funcs.is_empty() { 0 } else { 9 };
         let w_if = if deep || self.cfg.no_if_expr { 0 } else { 1 };
@@ -815,7 +815,7 @@ impl<'a> Gen<'a> {
                 let ty = self.any_ty();
                 let e = self.expr(&ty, 0);
                 let name = self.fresh("v");
-                let ann = if self.t.chance(1, 3) { Some(ty.clone()) } else { None };
+                let ann = if self.t.chance(if self.cfg.negative_bias { 2 } else { 1 }, 3) { Some(ty.clone()) } else { None };
                 if ann.is_none() && self.is_union_rooted(&e) {
                     self.union_vars.insert(name.clone());
                 }
